@@ -84,10 +84,24 @@ def build(ctx, rng):
             layout = tables[t]
             vals = {c: gen.text(rng, enc, layout[c]['end'] - layout[c]['start'], rng.choice(['alnum', 'digits', 'mixed', 'spaces']))
                     for c in layout}
-            rows.append({'table': t, 'sub': rng.choice(sub_of[t]), 'ts10': gen.text(rng, enc, 10, 'digits'),
-                         'ts7': gen.text(rng, enc, 7, 'digits'), 'code': rng.choice('AI'), 'values': vals,
-                         'extra': rng.choice([0, 0, 5, 30])})
+            row = {'table': t, 'sub': rng.choice(sub_of[t]), 'ts10': gen.text(rng, enc, 10, 'digits'),
+                   'ts7': gen.text(rng, enc, 7, 'digits'), 'code': rng.choice('AI'), 'values': vals,
+                   'extra': rng.choice([0, 0, 5, 30]), 'cut': None}
+            if rng.random() < 0.15 and max(c['end'] for c in layout.values()) > 21:
+                # a row whose trailing characters were trimmed: it ends part-way through (or before) its last columns;
+                # each column is then whatever its positions still hold
+                last = max(c['end'] for c in layout.values())
+                row['cut'] = rng.randint(max(20, last - 25), last - 1)
+                row['extra'] = 0
+            rows.append(row)
     rng.shuffle(rows)
+    if len(names) > 1 and rng.random() < 0.03:
+        # thousands of rows of another table ahead of the wanted ones (a skip loop must not be recursive or quadratic)
+        other = names[0]
+        lay = tables[other]
+        filler = {'table': other, 'sub': sub_of[other][0], 'ts10': '2' * 10, 'ts7': '2' * 7, 'code': 'A',
+                  'values': {c: 'Z' * (lay[c]['end'] - lay[c]['start']) for c in lay}, 'extra': 0, 'cut': None}
+        rows = [dict(filler) for _ in range(3000)] + rows
     noise_at = set(rng.sample(range(len(rows) + 1), min(len(rows) + 1, rng.randint(0, 3))))
     return {'enc': enc, 'tables': tables, 'index': index, 'rows': rows, 'unindexed_sub': unindexed_sub, 'noise_at': noise_at}
 
@@ -107,10 +121,23 @@ def records(x, expanded, rng_fill):
             recs.append(('TRAILER RECORD %s  %08d' % (r['table'], 7)).ljust(80))
         layout = x['tables'][r['table']]
         if expanded:
-            recs.append(ref.expanded_row(r['table'], r['ts10'], r['code'], r['values'], layout, extra=r['extra']))
+            text = ref.expanded_row(r['table'], r['ts10'], r['code'], r['values'], layout, extra=r['extra'])
+            recs.append(text[:r['cut']] if r.get('cut') else text)
         else:
-            recs.append(ref.compressed_row(r['sub'], r['ts7'], r['code'], r['values'], layout, extra=r['extra']))
+            text = ref.compressed_row(r['sub'], r['ts7'], r['code'], r['values'], layout, extra=r['extra'])
+            recs.append(text[:r['cut'] - 8] if r.get('cut') else text)
     return [s.encode(enc) for s in recs]
+
+
+def cut_values(r, layout):
+    """Column values of a row trimmed at expanded position r['cut']: what the configured positions still hold."""
+    if not r.get('cut'):
+        return r['values']
+    out = {}
+    for c, v in r['values'].items():
+        keep = max(0, min(len(v), r['cut'] - layout[c]['start']))
+        out[c] = v[:keep]
+    return out
 
 
 def judge(ctx, case):
@@ -145,8 +172,10 @@ def judge(ctx, case):
         s = refb.vbs(recs)
         data = refb.block(s) if blocked else s
         for table in sorted(x['tables']):
-            want = [ref.expected_dict(r['table'], r['ts10'] if expanded else r['ts7'], r['code'], r['values'])
+            want = [ref.expected_dict(r['table'], r['ts10'] if expanded else r['ts7'], r['code'], cut_values(r, x['tables'][table]))
                     for r in x['rows'] if r['table'] == table]
+            if any(r.get('cut') for r in x['rows'] if r['table'] == table):
+                ctx.count('requests including a row that ends part-way through its columns')
             route = 'class' if rng.random() < 0.6 else 'csv_tool'
             ctx.seen('routes', route)
             ctx.seen('representations', 'expanded' if expanded else 'compressed')
@@ -222,6 +251,8 @@ def require(m):
         reasons.append('not every packaged table and a generated one was requested: %s' % sorted(t))
     if len(set(m['classes'].get('formats/codecs', ()))) < 4:
         reasons.append('formats x codecs not all driven')
+    if not m['counters'].get('requests including a row that ends part-way through its columns'):
+        reasons.append('no trimmed row driven')
     if not m['counters'].get('requests returning at least one row'):
         reasons.append('no request returned rows')
     return reasons
